@@ -201,9 +201,9 @@ func matchLogfmtLeaf(v GVal, raw string) string {
 		return list(len(v.Strs), func(i int, e string) bool { s, ok := unq(e); return ok && s == v.Strs[i] })
 	case "bools":
 		return list(len(v.Bools), func(i int, e string) bool { return e == strconv.FormatBool(v.Bools[i]) })
-	case "ints", "int64s":
+	case "ints", "int64s", "int8s", "int16s", "int32s":
 		return list(len(v.Ints), func(i int, e string) bool { return e == strconv.FormatInt(v.Ints[i], 10) })
-	case "uint64s", "uint16s":
+	case "uint64s", "uint16s", "uints", "uint32s":
 		return list(len(v.Uints), func(i int, e string) bool {
 			u := v.Uints[i]
 			if v.Kind == "uint16s" {
